@@ -175,9 +175,8 @@ class Engine:
     def state_hash(self, world):
         parts = []
         for h in world.handles.values():
-            parts.append((h.id, sorted(map(vkey, h.V)), sorted(map(ekey, h.E)),
-                          [vkey(s) for s in h.S]))
-        return h64(canon(parts))
+            parts.append("%s|%s|%s|%s" % (h.id, sorted(map(repr, h.V)), sorted(map(repr, h.E)), h.S))
+        return h64("#".join(parts))
 
     def op_property(self, world, op, prop):
         k = op["op"]
